@@ -18,7 +18,7 @@ from symrt.fuel import Fuel, FuelExhausted
 MODE = os.environ.get('HX_MODE', 'concrete')
 SYM = MODE == 'sym'
 
-COUNT = {'reach': 0, 'rejected': 0, 'failed': 0, 'runs': 0}
+COUNT = {'reach': 0, 'rejected': 0, 'failed': 0, 'runs': 0, 'max_ticks': 0}
 LAST = {'exc': None, 'ok': None, 'note': None}
 _REJECT = [False]
 UTC = datetime.timezone.utc
@@ -236,6 +236,8 @@ def run(body, args):
     finally:
         if not SYM:
             sys.settrace(None)
+    if Fuel.used > COUNT['max_ticks']:
+        COUNT['max_ticks'] = Fuel.used
     if Fuel.tripped:
         ok = False
     if ok:
@@ -274,3 +276,27 @@ def same_sign(a, b):
         return (dbits(a) >= 2 ** 63) == (dbits(b) >= 2 ** 63)
     import math
     return math.copysign(1.0, a) == math.copysign(1.0, b)
+
+
+def valid_text(s):
+    """no lone surrogates (U+D800..U+DFFF): such strings are not encodable text; CPython's UTF-8 codec
+    refuses them while CrossHair's model of str.encode does not, so harnesses keep them outside the
+    symbolic domain"""
+    for c in s:
+        if 0xD800 <= ord(c) <= 0xDFFF:
+            return False
+    return True
+
+
+def single_bits(x):
+    """IEEE-754 binary32 bit pattern of the nearest single (ties to even) of a non-NaN float"""
+    if SYM:
+        import z3
+        with NoTracing():
+            from crosshair.libimpl.builtinslib import PreciseIeeeSymbolicFloat, SymbolicInt
+            if isinstance(x, PreciseIeeeSymbolicFloat):
+                y = z3.fpFPToFP(z3.RNE(), x.var, z3.Float32())
+                return SymbolicInt(z3.BV2Int(z3.fpToIEEEBV(y)))
+            x = realize(x)
+    import ctypes
+    return ctypes.c_uint32.from_buffer(ctypes.c_float(x)).value
